@@ -105,6 +105,25 @@ func main() {
 			plan = prog.Plan{Batch: map[int]int{8: 10001, 5: 20001}[i], MaxOps: 1, AfterClose: true}
 		}
 		res := prog.Run(e.Rand, cfg, plan)
+		if plan.NoModel {
+			// direct oracle only
+			switch {
+			case res.ErrIdx != -1:
+				e.Count(true, res.CaseLine(), "rejected:"+res.ErrClass)
+				e.Fail("unexpected-rejection", fmt.Sprintf("operation %d of a program of valid operations is refused: %s", res.ErrIdx, res.ErrText), res.Describe())
+			default:
+				rb := prog.Check(res)
+				seen := map[string]bool{}
+				for _, f := range rb.Fails {
+					if !seen[f.Sig] {
+						seen[f.Sig] = true
+						e.Fail(f.Sig, f.What, res.Describe())
+					}
+				}
+				e.Count(true, res.CaseLine(), "boundary sweep (direct oracle only) "+cfg.String())
+			}
+			continue
+		}
 		class := fmt.Sprintf("v%d hr=%v seek=%v cipher=%d", cfg.VIdx, cfg.HR, cfg.Seek, cfg.Cipher())
 		switch {
 		case res.ErrIdx == -2:
